@@ -193,7 +193,10 @@ def r_who_cancel(ctx: Ctx, rule: str):
                     elif it0.func.attr == "items" and isinstance(lp.target, ast.Tuple) and len(lp.target.elts) == 2 and isinstance(lp.target.elts[1], ast.Name) \
                             and lp.target.elts[1].id == recv.id:
                         it0, tgt_ok = it0.func.value, True
-                if tgt_ok and isinstance(it0, ast.Name):
+                if tgt_ok and c.func is f and (isinstance(it0, (ast.ListComp, ast.DictComp, ast.GeneratorExp)) or (
+                        isinstance(it0, ast.Call) and isinstance(it0.func, ast.Name) and it0.func.id in ("tuple", "list") and len(it0.args) == 1)):
+                    src = it0  # the collection of look-ups written in the loop header itself
+                elif tgt_ok and isinstance(it0, ast.Name):
                     from .shared import _caller_frame
 
                     fr, fenv, it = _caller_frame(ctx, c.func, c.env, it0)
